@@ -39,10 +39,11 @@ type Program struct {
 	GOOS      string
 	GOARCH    string
 
-	nnErrCache map[*ssa.Function]int
-	sites      map[ssa.CallInstruction][]*ssa.Function
-	reachCache map[*ssa.Function]map[*ssa.Function]bool
-	callerIdx  map[*ssa.Function][]ssa.CallInstruction
+	nnErrCache  map[*ssa.Function]int
+	nnPresCache map[*ssa.Function]int
+	sites       map[ssa.CallInstruction][]*ssa.Function
+	reachCache  map[*ssa.Function]map[*ssa.Function]bool
+	callerIdx   map[*ssa.Function][]ssa.CallInstruction
 }
 
 func repoDir() string {
